@@ -69,78 +69,101 @@ func runC03(c *Ctx) {
 			}
 		})
 	}
-	// (i) clamp
+	// (i) clamp: after the stores in Attack the counter is ≤ a.maxWorkers
 	key := "spawn-cap:clamp:" + shortFn(a.Attack)
-	clampOK := false
-	var clampWhy string
-	switch len(storesAttack) {
-	case 1:
-		// workers := min(a.workers, a.maxWorkers)
-		if call, ok := storesAttack[0].Val.(*ssa.Call); ok && callName(&call.Call) == "builtin:min" {
-			hasW, hasM := false, false
-			for _, arg := range call.Call.Args {
-				hasW = hasW || attackerFieldLoad(arg, "workers")
-				hasM = hasM || attackerFieldLoad(arg, "maxWorkers")
+	clampOK := len(storesAttack) > 0
+	clampWhy := "the counter is never initialised in Attack"
+	geFact := func(b *ssa.BasicBlock, subject func(ssa.Value) bool, wantGreater bool) bool {
+		// is `subject > a.maxWorkers` known true (wantGreater) / known false (!wantGreater) at b?
+		for _, f := range factsAt(b) {
+			bo, ok := f.Cond.(*ssa.BinOp)
+			if !ok {
+				continue
 			}
-			clampOK = hasW && hasM
+			var op token.Token
+			switch {
+			case subject(bo.X) && attackerFieldLoad(bo.Y, "maxWorkers"):
+				op = bo.Op
+			case subject(bo.Y) && attackerFieldLoad(bo.X, "maxWorkers"):
+				op = flipOp(bo.Op)
+			default:
+				continue
+			}
+			greater := (op == token.GTR || op == token.GEQ) && f.Val || (op == token.LEQ || op == token.LSS) && !f.Val
+			notGreater := (op == token.GTR) && !f.Val || (op == token.LEQ || op == token.LSS) && f.Val
+			if wantGreater && greater {
+				return true
+			}
+			if !wantGreater && notGreater {
+				return true
+			}
 		}
-		clampWhy = "the initial worker count is not clamped to a.maxWorkers"
-	case 2:
-		s1, s2 := storesAttack[0], storesAttack[1]
-		if !instrDominates(s1, s2) {
-			s1, s2 = s2, s1
-		}
-		if attackerFieldLoad(s1.Val, "workers") && attackerFieldLoad(s2.Val, "maxWorkers") {
-			// s2 under `cell > a.maxWorkers` (or >=)
-			for _, f := range factsAt(s2.Block()) {
-				bo, ok := f.Cond.(*ssa.BinOp)
-				if !ok || !f.Val {
+		return false
+	}
+	isWorkersField := func(v ssa.Value) bool { return attackerFieldLoad(v, "workers") }
+	isCellOrWorkers := func(v ssa.Value) bool { return isCellLoad(v) || isWorkersField(v) }
+	var unguardedWorkersStore *ssa.Store
+	var overwrite *ssa.Store
+	for _, st := range storesAttack {
+		switch {
+		case attackerFieldLoad(st.Val, "maxWorkers"):
+			if geFact(st.Block(), isCellOrWorkers, true) {
+				overwrite = st
+			}
+			// storing maxWorkers itself always satisfies counter ≤ maxWorkers
+		case isWorkersField(st.Val):
+			if !geFact(st.Block(), isWorkersField, false) {
+				unguardedWorkersStore = st
+			}
+		default:
+			if call, ok := st.Val.(*ssa.Call); ok && callName(&call.Call) == "builtin:min" {
+				hasW, hasM := false, false
+				for _, arg := range call.Call.Args {
+					hasW = hasW || attackerFieldLoad(arg, "workers")
+					hasM = hasM || attackerFieldLoad(arg, "maxWorkers")
+				}
+				if hasW && hasM {
 					continue
 				}
-				if (bo.Op == token.GTR || bo.Op == token.GEQ) && isCellLoad(bo.X) && attackerFieldLoad(bo.Y, "maxWorkers") {
-					clampOK = true
-				}
-				if (bo.Op == token.LSS || bo.Op == token.LEQ) && isCellLoad(bo.Y) && attackerFieldLoad(bo.X, "maxWorkers") {
-					clampOK = true
-				}
 			}
-			// the clamp test must be unconditional: its If dominates the function's return
-			if clampOK {
-				clampOK = false
-				for _, f := range factsAt(s2.Block()) {
-					if f.If != nil && dominatesAllReturns(f.If) {
-						clampOK = true
-					}
+			clampOK, clampWhy = false, "the counter is initialised from something other than a.workers / a.maxWorkers"
+		}
+	}
+	if clampOK && unguardedWorkersStore != nil {
+		// `workers := a.workers; if workers > a.maxWorkers { workers = a.maxWorkers }`
+		okLater := overwrite != nil && instrDominates(unguardedWorkersStore, overwrite)
+		if okLater {
+			okLater = false
+			for _, f := range factsAt(overwrite.Block()) {
+				if f.If != nil && dominatesAllReturns(f.If) {
+					okLater = true
 				}
 			}
 		}
-		clampWhy = "the second store to the counter is not `counter = a.maxWorkers` under `counter > a.maxWorkers`"
-	default:
-		clampWhy = fmt.Sprintf("%d stores to the counter in Attack", len(storesAttack))
+		if !okLater {
+			clampOK, clampWhy = false, "the initial worker count is not clamped to a.maxWorkers"
+		}
 	}
 	c.Check(clampOK, key, rCap, "counter = min(a.workers, a.maxWorkers)", clampWhy, c.at(cell))
 
 	// initial spawn loop
-	var goAttack, goLoop []*ssa.Go
-	for _, fn := range c.P.RepoFuncs("lib") {
-		eachInstr(fn, func(i ssa.Instruction) {
-			if g, ok := i.(*ssa.Go); ok && g.Call.StaticCallee() == a.Worker {
-				switch fn {
-				case a.Attack:
-					goAttack = append(goAttack, g)
-				case a.Loop:
-					goLoop = append(goLoop, g)
-				default:
-					c.Fail("spawn-cap:elsewhere:"+shortFn(fn), rCap, "a worker is started outside Attack", c.at(g))
-				}
-			}
-		})
+	type spawnAt struct {
+		at  ssa.Instruction
+		blk *ssa.BasicBlock
+	}
+	var goAttack, goLoop []spawnAt
+	for _, sp := range a.Spawns {
+		if sp.Fn == a.Attack {
+			goAttack = append(goAttack, spawnAt{sp.At, sp.At.Block()})
+		} else {
+			goLoop = append(goLoop, spawnAt{sp.At, sp.At.Block()})
+		}
 	}
 	for k, g := range goAttack {
 		key := fmt.Sprintf("spawn-cap:initial:%s#%d", shortFn(a.Attack), k)
 		ok := false
 		why := "the go statement is not inside `for i := 0; i < counter; i++`"
-		for _, f := range factsAt(g.Block()) {
+		for _, f := range factsAt(g.blk) {
 			bo, isBo := f.Cond.(*ssa.BinOp)
 			if !isBo || !f.Val || bo.Op != token.LSS || !isCellLoad(bo.Y) {
 				continue
@@ -159,7 +182,7 @@ func runC03(c *Ctx) {
 			if isC && z == 0 && isAdd && add.Op == token.ADD && add.X == ssa.Value(phi) {
 				if one, isOne := constInt(add.Y); isOne && one == 1 {
 					// exactly one go-worker per iteration: the go's block loops back to the header
-					if add.Block() == g.Block() || g.Block().Dominates(add.Block()) {
+					if add.Block() == g.blk || g.blk.Dominates(add.Block()) {
 						ok = true
 					}
 				}
@@ -172,7 +195,7 @@ func runC03(c *Ctx) {
 				}
 			}
 		}
-		c.Check(ok, key, rCap, "inside the counting loop bounded by the clamped counter", why, c.at(g))
+		c.Check(ok, key, rCap, "inside the counting loop bounded by the clamped counter", why, c.at(g.at))
 	}
 	if len(goAttack) == 0 {
 		c.Fail("spawn-cap:initial:"+shortFn(a.Attack), rCap, "no initial worker is started in Attack", c.fnAt(a.Attack))
@@ -182,7 +205,7 @@ func runC03(c *Ctx) {
 	for k, g := range goLoop {
 		key := fmt.Sprintf("spawn-cap:on-demand:%s#%d", shortFn(a.Loop), k)
 		guarded := false
-		for _, f := range factsAt(g.Block()) {
+		for _, f := range factsAt(g.blk) {
 			bo, isBo := f.Cond.(*ssa.BinOp)
 			if !isBo || !f.Val {
 				continue
@@ -195,14 +218,14 @@ func runC03(c *Ctx) {
 			}
 		}
 		if !guarded {
-			c.Fail(key, rCap, "the on-demand spawn is not dominated by `workers < a.maxWorkers` (strict)", c.at(g))
+			c.Fail(key, rCap, "the on-demand spawn is not dominated by `workers < a.maxWorkers` (strict)", c.at(g.at))
 			continue
 		}
 		// exactly one increment store in the same block
 		n := 0
 		okInc := true
 		for _, st := range storesLoop {
-			if st.Block() == g.Block() {
+			if st.Block() == g.blk {
 				n++
 				bo, ok := st.Val.(*ssa.BinOp)
 				if !ok || bo.Op != token.ADD || !isCellLoad(bo.X) {
@@ -216,7 +239,7 @@ func runC03(c *Ctx) {
 		for _, st := range storesLoop {
 			inSpawn := false
 			for _, g2 := range goLoop {
-				if g2.Block() == st.Block() {
+				if g2.blk == st.Block() {
 					inSpawn = true
 				}
 			}
@@ -224,7 +247,7 @@ func runC03(c *Ctx) {
 				okInc = false
 			}
 		}
-		c.Check(n == 1 && okInc, key, rCap, "guarded by workers < a.maxWorkers; counter incremented once", "the counter is not incremented exactly once (by 1) with each on-demand spawn, or is written elsewhere in the loop", c.at(g))
+		c.Check(n == 1 && okInc, key, rCap, "guarded by workers < a.maxWorkers; counter incremented once", "the counter is not incremented exactly once (by 1) with each on-demand spawn, or is written elsewhere in the loop", c.at(g.at))
 	}
 	if len(goLoop) == 0 {
 		c.Fail("spawn-cap:on-demand:"+shortFn(a.Loop), rCap, "no on-demand spawn in the loop (free capacity would never be used)", c.fnAt(a.Loop))
@@ -272,71 +295,54 @@ func runC03(c *Ctx) {
 	c02OneResultPerTick(c, a)
 
 	// grow on demand shape
-	const rGrow = "the on-demand spawn sits in the default arm of a non-blocking select that offered the tick and watched stopch, and control continues to the blocking select with the same two arms"
+	const rGrow = "the on-demand spawn happens only after a non-blocking offer of the tick (which also watched stopch) found no idle worker, and control continues to the blocking offer"
 	for k, g := range goLoop {
 		key := fmt.Sprintf("grow-on-demand:%s#%d", shortFn(a.Loop), k)
-		var nb *ssa.Select
-		eachInstr(a.Loop, func(i ssa.Instruction) {
-			if s, ok := i.(*ssa.Select); ok && !s.Blocking && instrDominates(s, g) {
-				nb = s
+		var nb *tickOffer
+		for oi := range a.Offers {
+			o := &a.Offers[oi]
+			if !o.Blocking && o.Helper == nil && instrDominates(o.At, g.at) {
+				nb = o
 			}
-		})
+		}
 		if nb == nil {
-			c.Fail(key, rGrow, "the spawn is not preceded by a non-blocking select", c.at(g))
+			c.Fail(key, rGrow, "the spawn is not preceded by a non-blocking select that offers the tick", c.at(g.at))
 			continue
 		}
-		hasSend, hasStop := false, false
-		for _, st := range nb.States {
-			if st.Dir == types.SendOnly && valueOrCell(st.Chan) == a.Ticks {
-				hasSend = true
-			}
-			if st.Dir == types.RecvOnly && isStopchLoad(st.Chan) {
-				hasStop = true
-			}
-		}
-		if !hasSend || !hasStop {
-			c.Fail(key, rGrow, "the non-blocking select does not offer the tick and watch stopch", c.at(nb))
+		if !nb.HasStop {
+			c.Fail(key, rGrow, "the non-blocking select does not watch stopch", c.at(nb.At))
 			continue
 		}
-		// default arm: all index tests false
+		// the spawn is reachable only when neither the send nor the stop case fired:
+		// from the sent / stopped outcomes the spawn must be unreachable within this iteration
 		inDefault := true
-		known := map[ssa.Value]bool{}
-		for _, f := range factsAt(g.Block()) {
-			if !f.Val {
-				known[f.Cond] = true
+		for _, out := range []*ssa.BasicBlock{nb.Sent, nb.Stopped} {
+			if out == nil {
+				continue
 			}
-		}
-		for _, r := range refs(nb) {
-			if ex, ok := r.(*ssa.Extract); ok && ex.Index == 0 {
-				cnt := 0
-				for _, rr := range refs(ex) {
-					if bo, ok := rr.(*ssa.BinOp); ok && bo.Op == token.EQL {
-						cnt++
-						if !known[ssa.Value(bo)] {
-							inDefault = false
-						}
-					}
-				}
-				if cnt < len(nb.States) {
-					inDefault = false
-				}
+			set := exploreBlock(out, func(i ssa.Instruction) bool { return i == ssa.Instruction(a.Pace) })
+			if set[g.at] {
+				inDefault = false
 			}
 		}
 		if !inDefault {
-			c.Fail(key, rGrow, "the spawn is not in the default arm (it would run even when an idle worker took the tick)", c.at(g))
+			c.Fail(key, rGrow, "the spawn is not confined to the default outcome (it would run even when an idle worker took the tick)", c.at(g.at))
 			continue
 		}
-		// continues to blocking select without passing Pace
-		set := explore(g, false, func(i ssa.Instruction) bool {
-			s, ok := i.(*ssa.Select)
-			return ok && s.Blocking
+		// continues to a blocking offer without passing Pace
+		set := explore(g.at, false, func(i ssa.Instruction) bool {
+			for _, o := range a.Offers {
+				if o.Blocking && i == o.At {
+					return true
+				}
+			}
+			return false
 		})
-		reachedPace := set[ssa.Instruction(a.Pace)]
-		if reachedPace || len(returnsIn(set)) > 0 {
-			c.Fail(key, rGrow, "after spawning, the tick is not handed over by the blocking select", c.at(g))
+		if set[ssa.Instruction(a.Pace)] || len(returnsIn(set)) > 0 {
+			c.Fail(key, rGrow, "after spawning, the tick is not handed over by the blocking select", c.at(g.at))
 			continue
 		}
-		c.Pass(key, rGrow, "default arm → spawn → blocking select", c.at(nb), c.at(g))
+		c.Pass(key, rGrow, "default outcome → spawn → blocking offer", c.at(nb.At), c.at(g.at))
 	}
 
 	// flags
@@ -567,19 +573,31 @@ func runC04(c *Ctx) {
 	const rElapsed = "Pace's elapsed argument is time.Since(atk.began) evaluated in the same loop iteration; attack.began is written once, from time.Now(), in Attack's composite literal"
 	elapsed := pace.Call.Args[0]
 	keyE := "pace-elapsed:" + shortFn(fn)
-	since, ok := elapsed.(*ssa.Call)
 	header := loopHeaderOf(pace.Block())
-	if !ok || callName(&since.Call) != "time.Since" {
-		c.Fail(keyE, rElapsed, "elapsed is not a time.Since(...) call", c.at(pace))
-	} else if !isAttackBeganLoad(since.Call.Args[0], a) {
-		c.Fail(keyE, rElapsed, "time.Since is not applied to this attack's began (attack.began of the object created in Attack)", c.at(since))
-	} else if header == nil || !header.Dominates(since.Block()) {
-		c.Fail(keyE, rElapsed, "elapsed is computed outside the loop (once, not per iteration)", c.at(since))
-	} else if !instrDominates(since, pace) {
-		c.Fail(keyE, rElapsed, "elapsed is not computed before Pace", c.at(since))
-	} else {
-		c.Pass(keyE, rElapsed, "time.Since(atk.began) per iteration", c.at(since))
+	var clock *ssa.Call // the clock read of this iteration
+	okElapsed, whyElapsed := false, "elapsed is not time.Since(atk.began) / time.Now().Sub(atk.began)"
+	if call, ok := elapsed.(*ssa.Call); ok {
+		switch callName(&call.Call) {
+		case "time.Since":
+			if beganValue(call.Call.Args[0], a) {
+				clock, okElapsed = call, true
+			} else {
+				whyElapsed = "time.Since is not applied to this attack's began (attack.began of the object created in Attack)"
+			}
+		case "(time.Time).Sub":
+			if now, isNow := call.Call.Args[0].(*ssa.Call); isNow && callName(&now.Call) == "time.Now" && beganValue(call.Call.Args[1], a) {
+				clock, okElapsed = now, true
+			}
+		}
 	}
+	if okElapsed {
+		if header == nil || !header.Dominates(clock.Block()) {
+			okElapsed, whyElapsed = false, "elapsed is computed outside the loop (once, not per iteration)"
+		} else if !instrDominates(clock, pace) {
+			okElapsed, whyElapsed = false, "elapsed is not computed before Pace"
+		}
+	}
+	c.Check(okElapsed, keyE, rElapsed, "elapsed since atk.began, read per iteration", whyElapsed, c.at(pace))
 	c04BeganWriteOnce(c, a)
 
 	// (2) counter
@@ -592,17 +610,11 @@ func runC04(c *Ctx) {
 		okC := true
 		why := ""
 		sentBlocks := map[*ssa.BasicBlock]bool{}
-		eachInstr(fn, func(i ssa.Instruction) {
-			if sel, ok := i.(*ssa.Select); ok {
-				for k, st := range sel.States {
-					if st.Dir == types.SendOnly && valueOrCell(st.Chan) == a.Ticks {
-						if b := selectCaseBlock(sel, k); b != nil {
-							sentBlocks[b] = true
-						}
-					}
-				}
+		for _, o := range a.Offers {
+			if o.Sent != nil {
+				sentBlocks[o.Sent] = true
 			}
-		})
+		}
 		nInc := 0
 		for k, e := range phi.Edges {
 			pred := phi.Block().Preds[k]
@@ -664,24 +676,18 @@ func runC04(c *Ctx) {
 	} else {
 		okS := instrDominates(pace, sleep)
 		var sendSites []string
+		for _, o := range a.Offers {
+			sendSites = append(sendSites, c.at(o.At))
+			if !instrDominates(sleep, o.At) {
+				okS = false
+			}
+		}
 		eachInstr(fn, func(i ssa.Instruction) {
-			switch x := i.(type) {
-			case *ssa.Select:
-				for _, st := range x.States {
-					if st.Dir == types.SendOnly {
-						sendSites = append(sendSites, c.at(x))
-						if !instrDominates(sleep, x) {
-							okS = false
-						}
-					}
-				}
-			case *ssa.Send:
+			if x, ok := i.(*ssa.Send); ok {
 				sendSites = append(sendSites, c.at(x))
 				if !instrDominates(sleep, x) {
 					okS = false
 				}
-			case *ssa.Go:
-				// a worker must not be started before the wait elapsed either (it cannot hit without a tick; fine)
 			}
 		})
 		c.Check(okS && len(sendSites) > 0, keyS, rSleep, "Sleep(wait) dominates all tick sends", "a tick can be sent without first sleeping for the wait Pace returned", append([]string{c.at(sleep)}, sendSites...)...)
@@ -752,8 +758,10 @@ func runC04(c *Ctx) {
 				okD, why = false, "when the duration has elapsed the loop still reaches Pace"
 			}
 			for i := range set {
-				if _, isSel := i.(*ssa.Select); isSel {
-					okD, why = false, "when the duration has elapsed a tick can still be sent"
+				for _, o := range a.Offers {
+					if i == o.At {
+						okD, why = false, "when the duration has elapsed a tick can still be sent"
+					}
 				}
 			}
 		}
@@ -777,9 +785,13 @@ func runC04(c *Ctx) {
 		set := exploreBlock(ifS.Block().Succs[0], nil)
 		bad := len(returnsIn(set)) == 0
 		for i := range set {
-			switch i.(type) {
-			case *ssa.Select, *ssa.Send:
+			if _, isSend := i.(*ssa.Send); isSend {
 				bad = true
+			}
+			for _, o := range a.Offers {
+				if i == o.At {
+					bad = true
+				}
 			}
 			if i == ssa.Instruction(pace) {
 				bad = true
@@ -815,6 +827,16 @@ func loopHeaderOf(b *ssa.BasicBlock) *ssa.BasicBlock {
 		}
 	}
 	return nil
+}
+
+// beganValue: v is the attack's began instant — a load of attack.began, possibly
+// hoisted into a local before the loop (began is write-once, checked separately).
+func beganValue(v ssa.Value, a *attackAnchors) bool {
+	if isAttackBeganLoad(v, a) {
+		return true
+	}
+	r := resolveOnce(v)
+	return r != v && isAttackBeganLoad(r, a)
 }
 
 // isAttackBeganLoad: v is a load of <atk>.began where <atk> is the attack object of this Attack call / hit parameter.
@@ -897,15 +919,15 @@ func runC05(c *Ctx) {
 	const rTS = "Result.Timestamp is stored exactly once per hit, inside the critical section that assigns the sequence number, from began.Add(time.Since(began)) on this attack's write-once began"
 	keyTS := "timestamp-in-critical-section:" + shortFn(hit)
 	var tsStores []*ssa.Store
-	for _, fn := range withAnon(hit) {
+	for _, fn := range region(hit) {
 		eachInstr(fn, func(i ssa.Instruction) {
 			if st, ok := resultFieldStore(i, "Timestamp"); ok {
 				tsStores = append(tsStores, st)
 			}
 		})
 	}
-	if len(tsStores) != 1 || tsStores[0].Parent() != sf.fn {
-		c.Fail(keyTS, rTS, fmt.Sprintf("%d stores to Result.Timestamp in hit (want exactly one, in the function holding the sequence lock)", len(tsStores)), c.fnAt(hit))
+	if len(tsStores) != 1 {
+		c.Fail(keyTS, rTS, fmt.Sprintf("%d stores to Result.Timestamp in hit (want exactly one)", len(tsStores)), c.fnAt(hit))
 		return
 	}
 	ts := tsStores[0]
@@ -914,33 +936,63 @@ func runC05(c *Ctx) {
 	if sf.site != nil {
 		tsInHit = sf.site
 	}
-	add, ok := ts.Val.(*ssa.Call)
-	var clock *ssa.Call
+	if ts.Parent() != hit && ts.Parent() != sf.fn {
+		c.Fail(keyTS, rTS, "Result.Timestamp is stored in "+shortFn(ts.Parent())+", neither hit nor the function holding the sequence lock", c.at(ts))
+		return
+	}
+	// the timestamp expression, wherever it is computed: began.Add(<clock read relative to began>)
+	var add, clock *ssa.Call
+	nClock := 0
+	flowsFrom(ts.Val, func(v ssa.Value) bool {
+		call, ok := v.(*ssa.Call)
+		if !ok {
+			return false
+		}
+		switch callName(&call.Call) {
+		case "(time.Time).Add":
+			if add == nil {
+				add = call
+			}
+		case "time.Since", "time.Now":
+			nClock++
+			clock = call
+		}
+		return false
+	})
 	okBase := false
 	why := "the timestamp is not began.Add(<monotonic duration since began>)"
-	if ok && callName(&add.Call) == "(time.Time).Add" && isAttackBeganLoad(add.Call.Args[0], a) {
+	if add != nil && beganValue(add.Call.Args[0], a) && nClock == 1 {
 		if d, ok := add.Call.Args[1].(*ssa.Call); ok {
 			switch callName(&d.Call) {
 			case "time.Since":
-				if isAttackBeganLoad(d.Call.Args[0], a) {
-					clock, okBase = d, true
-				}
+				okBase = d == clock && beganValue(d.Call.Args[0], a)
 			case "(time.Time).Sub":
-				if now, ok := d.Call.Args[0].(*ssa.Call); ok && callName(&now.Call) == "time.Now" && isAttackBeganLoad(d.Call.Args[1], a) {
-					clock, okBase = now, true
-				}
+				okBase = d.Call.Args[0] == ssa.Value(clock) && callName(&clock.Call) == "time.Now" && beganValue(d.Call.Args[1], a)
 			}
+		} else if flowsFrom(add.Call.Args[1], func(v ssa.Value) bool { return v == ssa.Value(clock) }) && callName(&clock.Call) == "time.Since" && beganValue(clock.Call.Args[0], a) {
+			// the elapsed duration travels through a parameter / local before being added
+			okBase = true
 		}
-	} else if ok && callName(&add.Call) == "time.Now" {
+	} else if add == nil && nClock == 1 && callName(&clock.Call) == "time.Now" {
 		why = "the timestamp is a fresh wall-clock time.Now() rather than began + monotonic elapsed"
+	} else if nClock > 1 {
+		why = "the timestamp depends on more than one clock read"
 	}
 	c.Check(okBase, "timestamp-monotonic-base:"+shortFn(hit), "timestamps derive from the attack's start instant plus a monotonic elapsed time", "began.Add(time.Since(began))", why, c.at(ts))
 	if !okBase {
 		return
 	}
+	if clock.Parent() != sf.fn {
+		c.Fail(keyTS, rTS, "the clock is read in "+shortFn(clock.Parent())+", outside the function that holds the sequence lock (an argument evaluated before the lock is taken): two workers can obtain timestamps and sequence numbers in opposite orders", c.at(clock))
+		return
+	}
 	// one critical section
-	events := []ssa.Instruction{clock, ts, sf.seqLoadToResult, sf.seqStore}
-	names := []string{"clock read", "timestamp store", "seq load", "seq increment"}
+	events := []ssa.Instruction{clock, sf.seqLoadToResult, sf.seqStore}
+	names := []string{"clock read", "seq load", "seq increment"}
+	if ts.Parent() == sf.fn {
+		events = append(events, ts)
+		names = append(names, "timestamp store")
+	}
 	okCS := true
 	whyCS := ""
 	for k, e := range events {
@@ -983,7 +1035,7 @@ func runC05(c *Ctx) {
 			}
 		}
 	}
-	c.Check(okCS, keyTS, rTS, "clock read, timestamp, seq load and increment under one hold of "+sf.mu, whyCS, c.at(clock), c.at(ts), c.at(sf.seqLoadToResult), c.at(sf.seqStore))
+	c.Check(okCS, keyTS, rTS, "clock read, seq load and increment under one hold of "+sf.mu, whyCS, c.at(clock), c.at(ts), c.at(sf.seqLoadToResult), c.at(sf.seqStore))
 
 	// latency
 	const rLat = "Result.Latency = time.Since(Result.Timestamp) is stored by a closure deferred before every return that follows the critical section; it is the only store to Latency; the critical section precedes the transport call"
